@@ -56,7 +56,10 @@ pub fn gen(prop: &str, rng: &mut Rng, thorough: bool, emit: &mut dyn FnMut(Strin
         "C02" => c02::gen(rng, thorough, emit),
         "C03" => c03::gen(rng, thorough, emit),
         "C04" => c04::gen(rng, thorough, emit),
-        "C05" => c05::gen(rng, thorough, emit),
+        "C05" => {
+            c05::gen(rng, thorough, emit);
+            c03::gen_pred(rng, thorough, emit);
+        }
         "C06" => c06::gen(rng, thorough, emit),
         "C07" => c07::gen(rng, thorough, emit),
         "C08" => c08::gen(rng, thorough, emit),
